@@ -165,6 +165,14 @@ func runRule(r *Rule, p *Program, prop string) (obs []Obligation) {
 		if o.servesProp(prop) {
 			sel = append(sel, o)
 		}
+		// an obligation tagged with a property its rule does not declare would never be run for that
+		// property: a bookkeeping mistake in the checker, reported rather than silently skipped
+		for _, op := range o.Props {
+			if len(r.Props) > 0 && !r.serves(op) {
+				sel = append(sel, Obligation{Rule: r.ID, Key: r.ID + "/props-undeclared/" + op, Config: p.Cfg.Name, Status: Undecided, Pos: "-",
+					What: "every property an obligation serves is declared by its rule", Detail: o.Key + " serves " + op + ", which " + r.ID + " does not declare"})
+			}
+		}
 	}
 	if r.Floor != nil {
 		fl := r.Floor(p.Cfg, prop)
